@@ -107,6 +107,15 @@ func ensureBuild(race bool) (*buildInfo, error) {
 				os.WriteFile(filepath.Join(verifDir, "go.sum"), merged, 0o644)
 			}
 		}
+		// the real message extractor, built from the current tree (C11 runs it as a subprocess)
+		{
+			cmd := exec.Command("go", "build", "-o", filepath.Join(dir, "xgettext-soy"), "github.com/robfig/soy/soymsg/pomsg/xgettext-soy")
+			cmd.Dir = verifDir
+			cmd.Env = goEnv()
+			if o, err := cmd.CombinedOutput(); err != nil {
+				return nil, fmt.Errorf("go build xgettext-soy: %v\n%s", err, o)
+			}
+		}
 		var wg sync.WaitGroup
 		errs := make([]error, 2)
 		wg.Add(2)
